@@ -22,6 +22,30 @@ for f in sorted(os.listdir(os.path.join(V, "kani"))):
     kind = re.search(r"^//! KIND: (.*)$", s, re.M)
     bounded = re.search(r"^//! BOUNDED: (.*)$", s, re.M)
     hs = []
+    # per-function tag sets: the "[Cxx]" prefixes of the assertions in a check function's body (plus those of the
+    # check_* functions it calls); C01 (pointer checks / panics) and C18 (armed allocator stubs) ride along
+    bodies = {}
+    for mf in re.finditer(r"^(?:pub )?(?:unsafe )?fn (\w+)[^\n]*\n(.*?)(?=^(?:pub )?(?:unsafe )?fn |^#\[kani|^macro_rules|^inst|^// TIER|\Z)", s, re.M | re.S):
+        bodies[mf.group(1)] = mf.group(2)
+    def fn_tags(name, seen=()):
+        b = bodies.get(name, "")
+        t = set(re.findall(r"\[(C\d+)\]", b))
+        armed = "kit::arm()" in b
+        for callee in set(re.findall(r"\b(check_\w+)\s*(?:::<[^>]*>)?\(", b)):
+            if callee != name and callee not in seen:
+                t2, a2 = fn_tags(callee, seen + (name,))
+                t |= t2
+                armed = armed or a2
+        return t, armed
+    def harness_tags(fn_name):
+        t, armed = fn_tags(fn_name)
+        if not t:
+            return tags
+        if "C01" in tags:
+            t.add("C01")
+        if armed and "C18" in tags:
+            t.add("C18")
+        return sorted(x for x in t if x in tags)
     lines = s.split("\n")
     for i, l in enumerate(lines):
         name = None
@@ -47,7 +71,7 @@ for f in sorted(os.listdir(os.path.join(V, "kani"))):
             if name and "$" in name:
                 name = None
         if name:
-            hs.append({"name": mod + "::" + name, "kind": k, "function": fn or name, "tags": tags, "tier": tier, "bounded": bounded.group(1) if bounded else ""})
+            hs.append({"name": mod + "::" + name, "kind": k, "function": fn or name, "tags": harness_tags(fn or name) if not (fn and "::" in fn) else tags, "tier": tier, "bounded": bounded.group(1) if bounded else ""})
     groups[g] = {"features": "alloc", "n": {"quick": int(nm.group(1)) if nm else 3, "thorough": int(nm.group(2)) if nm else 4},
                  "unwind_extra": int(ue.group(1)) if ue else 3, "timeout": {"quick": 2400, "thorough": 14000}, "harnesses": hs, "file": "kani/" + f}
 json.dump(groups, open(os.path.join(V, "kani", "groups.json"), "w"), indent=1)
